@@ -166,8 +166,21 @@ func must(b cipher.Block, err error) cipher.Block {
 }
 
 // newImpl constructs the library MAC. dflt selects the constructor without a padding argument (= method 2).
+// keyDamage is set when a constructor modified the key slices it was given (the same slices are deliberately
+// handed to every constructor call, as a caller that builds one object per tag size or padding would do);
+// judge reports it. The slices are restored so that later cases are not affected.
+var keyDamage string
+
 func newImpl(sc schemeSpec, cs cipherSpec, ki, size int, p macref.Padding, dflt bool) cbcmac.BlockCipherMAC {
 	ka, kb := cs.keyA[ki], cs.keyB[ki]
+	ka0, kb0 := append([]byte{}, ka...), append([]byte{}, kb...)
+	defer func() {
+		if !bytes.Equal(ka, ka0) || !bytes.Equal(kb, kb0) {
+			keyDamage = fmt.Sprintf("%s/%s: the constructor modified the caller's key material: K %x -> %x, K' %x -> %x", sc.name, cs.name, ka0, ka, kb0, kb)
+			copy(ka, ka0)
+			copy(kb, kb0)
+		}
+	}()
 	switch sc.name {
 	case "cbcmac":
 		if dflt {
@@ -339,6 +352,10 @@ func safeMAC(o cbcmac.BlockCipherMAC, m []byte) (tag []byte, pval any) {
 
 // judge compares one library tag with the reference and files a violation. Returns true when equal.
 func (r *refCtx) judge(t *engine.T, what string, m []byte, size int, got []byte, pval any, spare bool) bool {
+	if keyDamage != "" {
+		t.Fail(r.sc.name+"/constructor-modifies-key", "%s", keyDamage)
+		keyDamage = ""
+	}
 	want := r.tag(len(m), size)
 	if !bytes.Equal(m, msg(len(m))) {
 		want = r.tagOf(m, size)
